@@ -116,7 +116,10 @@ pub fn run(outdir: &str, seed: u64, thorough: bool) -> serde_json::Value {
                     // column against column only between columns of the same kind (a comparison of a text with a boolean column is not well-typed SQL)
                     let kind = |t: &Ty| -> u8 { let t = if let Ty::Opt(x) = t { &**x } else { t }; match t { Ty::Int(_) | Ty::Float(_) => 0, Ty::Text(_) => 1, Ty::Bool(_) => 2, _ => 3 } };
                     let same: Vec<usize> = (0..3).filter(|j| *j != i && kind(&tys[*j]) == kind(&tys[i])).collect();
-                    let (l, rr) = (Expr::col(COLS[i]), if r.chance(1, 4) && !same.is_empty() { Expr::col(COLS[*r.pick(&same)]) } else { lit(r, &tys[i]) }); let (l, rr) = if r.chance(1, 2) { (l, rr) } else { (rr, l) };
+                    let (l, rr) = (Expr::col(COLS[i]), if r.chance(1, 4) && !same.is_empty() { Expr::col(COLS[*r.pick(&same)]) } else { lit(r, &tys[i]) });
+                    // a numeric operand under a function of one argument (decreasing, increasing, not monotone): the comparison bounds the image, not the column
+                    let l = if kind(&tys[i]) == 0 && r.chance(1, 4) { match r.below(6) { 0 | 1 => Expr::opposite(l), 2 => Expr::exp(l), 3 => Expr::abs(l), 4 => Expr::sqrt(l), _ => Expr::opposite(Expr::opposite(l)) } } else { l };
+                    let (l, rr) = if r.chance(1, 2) { (l, rr) } else { (rr, l) };
                     match r.below(5) { 0 => Expr::gt(l, rr), 1 => Expr::gt_eq(l, rr), 2 => Expr::lt(l, rr), 3 => Expr::lt_eq(l, rr), _ => Expr::eq(l, rr) } }
                 3 => { let i = r.below(3) as usize; let vals: Vec<Expr> = (0..r.range(1, 3)).map(|_| lit(r, &tys[i])).collect();
                     match &vals[0] { Expr::Value(Value::Integer(_)) => Expr::in_list(Expr::col(COLS[i]), Expr::list(vals.iter().filter_map(|v| if let Expr::Value(Value::Integer(x)) = v { Some(**x) } else { None }).collect::<Vec<i64>>())),
